@@ -9,16 +9,20 @@ package main
 import (
 	archzip "archive/zip"
 	"bytes"
+	"compress/flate"
 	"crypto/sha256"
 	"encoding/base64"
 	"encoding/hex"
 	"errors"
 	"fmt"
+	"hash/crc32"
 	"io"
+	"io/fs"
 	"os"
 	"path"
 	"path/filepath"
 	"sort"
+	"strconv"
 	"strings"
 	"sync"
 	"sync/atomic"
@@ -385,7 +389,336 @@ func c19WriteRawZip(zipPath string, names, contents []string) error {
 	return f.Close()
 }
 
+// ---- histories: a call that fails while READING a file, then another call (gap r5-C19-a)
+//
+// Input class added for the gap r5-C19-a: every op and every oracle case was a single call (or several
+// successful ones), and the only failures were failures of `open` itself or of the newline test, which
+// happen before a byte of the file is consumed. C19 says the h1 hash is a function of names and bytes
+// ONLY, so it must not depend on what the process did before either: the class "a Hash1/HashZip call
+// that fails in the middle of reading a file (a reader that returns an error after k bytes, with or
+// without the last bytes in the same Read; a zip entry whose CRC does not match, which archive/zip
+// reports only after all bytes were delivered), followed at once - same goroutine - by a Hash1 / HashZip /
+// HashDir call" was missing. Any state the package keeps between calls (a reused hasher or buffer) is
+// only observable through such a two-call history. The op `dirhash.after` carries the whole history in
+// one line, so that it replays in one goroutine of one process.
+
+var c19ErrRead = errors.New("c19: read failed")
+
+// c19FailReader delivers data and then fails; together: the error comes in the same Read call as the
+// last bytes (as io.Reader allows), otherwise in a call of its own.
+type c19FailReader struct {
+	data     string
+	pos      int
+	together bool
+}
+
+func (r *c19FailReader) Read(p []byte) (int, error) {
+	if len(p) == 0 {
+		return 0, nil
+	}
+	n := copy(p, r.data[r.pos:])
+	r.pos += n
+	if r.pos >= len(r.data) && (r.together || n == 0) {
+		return n, c19ErrRead
+	}
+	return n, nil
+}
+
+// c19OpenFailing is c19Open, except that the reader of `bad` fails after at most k bytes.
+func c19OpenFailing(names, contents []string, bad string, k int, together bool) func(string) (io.ReadCloser, error) {
+	open := c19Open(names, contents)
+	content := map[string]string{}
+	for i := len(names) - 1; i >= 0; i-- {
+		if i < len(contents) {
+			content[names[i]] = contents[i]
+		}
+	}
+	return func(name string) (io.ReadCloser, error) {
+		c, ok := content[name]
+		if name != bad || !ok {
+			return open(name)
+		}
+		if k < len(c) {
+			c = c[:k]
+		}
+		return io.NopCloser(&c19FailReader{data: c, together: together}), nil
+	}
+}
+
+// c19WriteCrcZip writes the archive of c19WriteRawZip, except that every entry named `bad` is written
+// (archive/zip CreateRaw; stored, or deflated when deflate is set) with a CRC-32 that does not match its
+// data: reading such an entry delivers all its bytes and then fails with zip.ErrChecksum.
+func c19WriteCrcZip(zipPath string, names, contents []string, bad string, deflate bool) error {
+	f, err := os.Create(zipPath)
+	if err != nil {
+		return err
+	}
+	defer f.Close()
+	zw := archzip.NewWriter(f)
+	for i, n := range names {
+		c := ""
+		if i < len(contents) {
+			c = contents[i]
+		}
+		if n == bad {
+			data := []byte(c)
+			crc := crc32.ChecksumIEEE(data) ^ 0x5a5a5a5a
+			if crc == 0 { // 0 means "not set" to the reader
+				crc = 1
+			}
+			fh := &archzip.FileHeader{Name: n, Method: archzip.Store, CRC32: crc, UncompressedSize64: uint64(len(data))}
+			raw := data
+			if deflate {
+				var buf bytes.Buffer
+				fw, err := flate.NewWriter(&buf, flate.DefaultCompression)
+				if err != nil {
+					return err
+				}
+				fw.Write(data)
+				if err := fw.Close(); err != nil {
+					return err
+				}
+				fh.Method = archzip.Deflate
+				raw = buf.Bytes()
+			}
+			fh.CompressedSize64 = uint64(len(raw))
+			w, err := zw.CreateRaw(fh)
+			if err != nil {
+				return err
+			}
+			if _, err := w.Write(raw); err != nil {
+				return err
+			}
+			continue
+		}
+		w, err := zw.Create(n)
+		if err != nil {
+			return err
+		}
+		if c != "" {
+			if _, err := w.Write([]byte(c)); err != nil {
+				return err
+			}
+		}
+	}
+	return zw.Close()
+}
+
+// c19After is a two-call history: a first call that (usually) fails while reading the file `bad`, then
+// a second call whose result C19 fixes.
+//
+//	k1 = read: Hash1(fnames, open) where the reader of `bad` fails after k bytes (together: see c19FailReader)
+//	k1 = crc:  HashZip of the archive with the entries (fnames, fcontents) where the entries named `bad`
+//	           have a wrong CRC-32 (k = 0: stored, otherwise deflated)
+//	k2 = hash1 / hashzip / hashdir: Hash1(names, open) / HashZip of the raw archive with these entries /
+//	           HashDir(directory with the files names, prefix)
+type c19After struct {
+	k1               string
+	fnames, fcontent []string
+	bad              string
+	k                int
+	together         bool
+	k2, prefix       string
+	names, contents  []string
+}
+
+func (o c19After) line() string {
+	return "dirhash.after " + o.k1 + " " + hxList(o.fnames) + " " + hxList(o.fcontent) + " " + hx(o.bad) + " " + fmt.Sprint(o.k) + " " +
+		showBool(o.together) + " " + o.k2 + " " + hx(o.prefix) + " " + hxList(o.names) + " " + hxList(o.contents)
+}
+
+// run prepares both fixtures first, so that the two calls follow each other directly in this goroutine.
+func (o c19After) run() (h1 string, e1 error, h2 string, e2 error, ok bool) {
+	h1, e1, h2, e2, _, _, ok = o.runBase(false)
+	return
+}
+
+// runBase: with base, the second call is also made once BEFORE the first one (result h0, e0).
+func (o c19After) runBase(base bool) (h1 string, e1 error, h2 string, e2 error, h0 string, e0 error, ok bool) {
+	if strings.HasSuffix(o.bad, "/") && o.k1 == "crc" {
+		return // a directory entry is never read: archive/zip does not check its CRC
+	}
+	scratch := c19Scratch()
+	defer os.RemoveAll(scratch)
+	var first, second func() (string, error)
+	switch o.k1 {
+	case "read":
+		open := c19OpenFailing(o.fnames, o.fcontent, o.bad, o.k, o.together)
+		first = func() (string, error) { return dirhash.Hash1(o.fnames, open) }
+	case "crc":
+		z := filepath.Join(scratch, "crc.zip")
+		if c19WriteCrcZip(z, o.fnames, o.fcontent, o.bad, o.k != 0) != nil {
+			return
+		}
+		first = func() (string, error) { return dirhash.HashZip(z, dirhash.Hash1) }
+	default:
+		return
+	}
+	switch o.k2 {
+	case "hash1":
+		open := c19Open(o.names, o.contents)
+		second = func() (string, error) { return dirhash.Hash1(o.names, open) }
+	case "hashzip":
+		z := filepath.Join(scratch, "raw.zip")
+		if c19WriteRawZip(z, o.names, o.contents) != nil {
+			return
+		}
+		second = func() (string, error) { return dirhash.HashZip(z, dirhash.Hash1) }
+	case "hashdir":
+		root := filepath.Join(scratch, "c19root")
+		if c19MakeTree(root, "dir", o.names, o.contents) != nil {
+			return
+		}
+		second = func() (string, error) { return dirhash.HashDir(root, o.prefix, dirhash.Hash1) }
+	default:
+		return
+	}
+	if base {
+		h0, e0 = second()
+	}
+	h1, e1 = first()
+	h2, e2 = second()
+	return h1, e1, h2, e2, h0, e0, true
+}
+
+// c19ResRead is c19Res for calls whose readers may fail: a read error (ours, or a zip checksum error) is
+// the same error kind as an open error in the model.
+func c19ResRead(s string, err error) string {
+	if err != nil && s == "" && (errors.Is(err, c19ErrRead) || errors.Is(err, archzip.ErrChecksum)) {
+		return "err:open"
+	}
+	return c19Res(s, err)
+}
+
+// ---- zips whose entry names are not canonical fs.FS paths (gap r5-C19-b)
+//
+// Input class added for the gap r5-C19-b: the h1 formula is defined for every newline-free name, and
+// HashZip works "by entry name": the name listed is the raw name of the entry and the content is the
+// content of that entry. archive/zip also offers a second, NORMALISED view of the same archive (fs.FS:
+// clean slash-separated valid UTF-8 paths, backslashes turned into slashes, leading "/" and "../"
+// stripped), and the two views coincide on exactly the names the zip package itself writes. The raw-zip
+// ops had a few such names by accident of the name pool ("./a", "/a", "a/", "\xff"), but the ORACLE only
+// hashed archives made by zip.Create / CreateFromDir, so the search never saw an archive on which the
+// two views differ. The class: entry names with a leading "./", "/" or "../", an empty element ("//"),
+// a "." or ".." element, a backslash, a trailing slash (explicit directory entry) or bytes that are not
+// UTF-8 - applied to module-zip-like names (p@v1/go.mod) and to the pool names; for each such archive
+// HashZip must be the documented formula over (entry name, entry content).
+
+var c19ZipBases = []string{"p@v1/go.mod", "p@v1/a.go", "p@v1/sub/b.go", "example.com/m@v1.0.0/a.go", "example.com/m@v1.0.0/sub/a.go",
+	"example.com/m@v1.0.0/go.mod", "a", "a/b", "a/b/c.go", "é/x.go"}
+
+// c19NonCanon rewrites a name into a spelling that is not a canonical fs.FS path.
+func c19NonCanon(r *Rand, n string) string {
+	if !strings.Contains(n, "/") && r.Chance(60) {
+		n = r.Pick([]string{"d", "p@v1", "a"}) + "/" + n
+	}
+	at := func(repl string) string { // replace one of the slashes
+		var idx []int
+		for i := 0; i < len(n); i++ {
+			if n[i] == '/' {
+				idx = append(idx, i)
+			}
+		}
+		if len(idx) == 0 {
+			return n + repl + "x"
+		}
+		i := idx[r.Intn(len(idx))]
+		return n[:i] + repl + n[i+1:]
+	}
+	switch r.Intn(16) {
+	case 0:
+		return "./" + n
+	case 1:
+		return "/" + n
+	case 2:
+		return "../" + n
+	case 3:
+		return at("//")
+	case 4:
+		return at("/./")
+	case 5:
+		return at("/../")
+	case 6:
+		return at("\\")
+	case 7:
+		return strings.ReplaceAll(n, "/", "\\")
+	case 8:
+		return n + "/" // explicit directory entry
+	case 9:
+		return n + r.Pick([]string{"\xff", "\xe9", "\xc3", "\xed\xa0\x80"})
+	case 10:
+		return at("/caf\xe9/")
+	case 11:
+		return n + "/."
+	case 12:
+		return n + "/.."
+	case 13:
+		return "//" + n
+	case 14:
+		return r.Pick([]string{".", "..", "./", "../", "/", "\\", "./.", "a/..", "a/.", ".\\a"})
+	}
+	return "./" + at("//")
+}
+
+func c19IsCanonFS(n string) bool { return fs.ValidPath(n) && n != "." && !strings.Contains(n, "\\") }
+
+// c19GenZipSet: the entries of a raw archive: pool names and module-zip-like names, a share of them in a
+// non-canonical spelling; directory entries carry no data. dup: allow a repeated name.
+func c19GenZipSet(r *Rand, dup bool) (names, contents []string, noncanon int) {
+	names, contents = c19GenSet(r, dup)
+	if len(names) == 0 && r.Chance(70) {
+		names, contents = []string{"a"}, []string{c19GenContent(r)}
+	}
+	share := []int{0, 20, 50, 100}[r.Intn(4)]
+	seen := map[string]bool{}
+	for i := range names {
+		if r.Chance(share) {
+			base := names[i]
+			if r.Chance(50) || strings.Contains(base, "\n") {
+				base = r.Pick(c19ZipBases)
+			}
+			if n := c19NonCanon(r, base); dup || !seen[n] {
+				names[i] = n
+			}
+		}
+		seen[names[i]] = true
+	}
+	if !dup && !c19Distinct(names) { // a rewritten name met a pool name: drop the later ones
+		var n2, c2 []string
+		s2 := map[string]bool{}
+		for i := range names {
+			if !s2[names[i]] {
+				s2[names[i]] = true
+				n2, c2 = append(n2, names[i]), append(c2, contents[i])
+			}
+		}
+		names, contents = n2, c2
+	}
+	for i := range names {
+		if strings.HasSuffix(names[i], "/") {
+			contents[i] = ""
+		}
+		if !c19IsCanonFS(names[i]) {
+			noncanon++
+		}
+	}
+	return
+}
+
 func init() {
+	impls["dirhash.after"] = func(a []string) string {
+		k, err := strconv.Atoi(a[4])
+		if err != nil || len(a) != 10 {
+			return "bad-op"
+		}
+		o := c19After{k1: a[0], fnames: unhxList(a[1]), fcontent: unhxList(a[2]), bad: unhx(a[3]), k: k, together: a[5] == "true",
+			k2: a[6], prefix: unhx(a[7]), names: unhxList(a[8]), contents: unhxList(a[9])}
+		h1, e1, h2, e2, ok := o.run()
+		if !ok {
+			return "err:setup"
+		}
+		return c19ResRead(h1, e1) + " " + c19ResRead(h2, e2)
+	}
 	impls["dirhash.sort"] = func(a []string) string {
 		l := append([]string(nil), unhxList(a[0])...)
 		sort.Strings(l)
@@ -539,7 +872,7 @@ func init() {
 		return c19Res(dirhash.HashDir(dir, m.Path+"@"+m.Version, dirhash.Hash1))
 	}
 	register(&Prop{ID: "C19", Gen: genC19, Oracle: oracleC19,
-		Rule: "file sets of 0-12 (name, content) pairs from pools (unicode, spaces, double spaces, prefixes of each other, case pairs, newline/NUL/0xff names, hex-looking names, empty and equal contents, SHA-256 block-boundary lengths) and their permutations; real directories (trees of depth <= 3, weird prefixes) and real zips (archive/zip with duplicates and directory entries; zip.Create module zips extracted by zip.Unzip); `open` readers that deliver in short reads / data with io.EOF / empty reads; one file of 32 KiB-70 KiB (flate window, io.Copy buffer, 64 KiB boundaries) in some zips and directories; directories named relative to a working directory (., ../c19root, c19root, sub/..) with top-level dot names; trees and module zips with regular files below specially named directories (.git, .hg, .svn, .bzr, vendor, testdata, _x, .x) at depth 1-4, HashDir/HashZip against the formula over the files actually present; non-trivial = at least two files or a refusal path; distinct by op line"})
+		Rule: "file sets of 0-12 (name, content) pairs from pools (unicode, spaces, double spaces, prefixes of each other, case pairs, newline/NUL/0xff names, hex-looking names, empty and equal contents, SHA-256 block-boundary lengths) and their permutations; real directories (trees of depth <= 3, weird prefixes) and real zips (archive/zip with duplicates and directory entries; zip.Create module zips extracted by zip.Unzip); `open` readers that deliver in short reads / data with io.EOF / empty reads; one file of 32 KiB-70 KiB (flate window, io.Copy buffer, 64 KiB boundaries) in some zips and directories; directories named relative to a working directory (., ../c19root, c19root, sub/..) with top-level dot names; trees and module zips with regular files below specially named directories (.git, .hg, .svn, .bzr, vendor, testdata, _x, .x) at depth 1-4, HashDir/HashZip against the formula over the files actually present; raw archives whose entry names are not canonical fs.FS paths (leading ./ / ../, //, . and .. elements, backslash, trailing slash, non-UTF-8), HashZip against the formula over the entries; two-call histories in one goroutine (a Hash1 whose reader fails after k bytes, or a HashZip on a CRC-damaged entry, followed by Hash1/HashZip/HashDir that must still be the formula); non-trivial = at least two files or a refusal path; distinct by op line"})
 }
 
 // ---- generators
@@ -952,8 +1285,14 @@ func genC19(g *Gen, n int) {
 	g.Emit("dirhash.dirfilesrel "+hx("/S/c19root")+" - dir "+hx("m@v1.0.0")+" "+hxList([]string{"a.go", ".a.go", ".sub/b.go"}), true, "boundary", "dirfilesrel")
 	g.Emit("dirhash.sha256 -", true, "boundary")
 	g.Emit("dirhash.sha256 "+hx("abc"), true, "boundary")
+	for _, o := range c19AfterBoundary() {
+		g.Emit(o.line(), true, "boundary", "after:"+o.k1+"->"+o.k2)
+	}
 	for g.st.Ops < n {
-		switch g.Intn(20) {
+		switch g.Intn(22) {
+		case 20, 21: // a call that fails while reading a file, then another call (r5-C19-a)
+			o := c19GenAfter(g.Rand, false)
+			g.Emit(o.line(), true, "after:"+o.k1+"->"+o.k2)
 		case 0, 1, 2, 3, 4, 5: // hash1 on a set and on a permutation of it
 			names, contents := c19GenSet(g.Rand, g.Chance(15))
 			tags := c19TagSet(names)
@@ -1034,12 +1373,15 @@ func genC19(g *Gen, n int) {
 					len(rels) >= 1 || kind != "dir", "hashdirrel", c19RelTag(rs))
 			}
 		case 16, 17: // raw archive: arbitrary entry names, duplicates, directory entries
-			names, contents := c19GenSet(g.Rand, g.Chance(30))
+			names, contents, nc := c19GenZipSet(g.Rand, g.Chance(30))
 			tags := []string{"rawzip"}
+			if nc > 0 { // entry names that are not canonical fs.FS paths (r5-C19-b)
+				tags = append(tags, "rawzip-noncanonical-name")
+			}
 			for i := range names {
-				if strings.HasSuffix(names[i], "/") {
-					contents[i] = "" // a directory entry carries no data
+				if strings.HasSuffix(names[i], "/") { // a directory entry carries no data
 					tags = append(tags, "dir-entry")
+					break
 				}
 			}
 			if c19MakeOneBig(g.Rand, 10, names, contents) { // a Deflate entry longer than the flate window
@@ -1238,6 +1580,14 @@ func oracleC19(g *Gen, n int) {
 		// (6) directory trees against the formula, with files below specially named directories
 		if g.Chance(25) {
 			c19OracleDirFormula(g)
+		}
+		// (7) raw archives, entry names that are not canonical fs.FS paths: HashZip against the formula
+		if g.Chance(50) {
+			c19OracleRawZip(g)
+		}
+		// (8) names and bytes ONLY: the formula also holds right after a call that failed while reading
+		if g.Chance(50) {
+			c19OracleAfter(g)
 		}
 	}
 }
@@ -1555,4 +1905,243 @@ func c19OracleDirFormula(g *Gen) {
 	c19CheckDirFormula(g, dir, prefix, rels, contents,
 		"dirhash.hashdir dir "+hx(prefix)+" "+hxList(rels)+" "+hxList(contents),
 		"dirhash.dirfiles dir "+hx(prefix)+" "+hxList(rels))
+}
+
+// ---- r5-C19-a: histories (see c19After)
+
+// c19AfterBoundary: the fixed histories emitted first.
+func c19AfterBoundary() []c19After {
+	fn, fc := []string{"broken", "go.mod"}, []string{"partial content and more", "module m\n"}
+	n3, c3 := []string{"go.mod", "m.go", "sub/x.go"}, []string{"module m\n", "package m\n", "package x\n"}
+	z3 := []string{"p@v1/go.mod", "p@v1/m.go", "p@v1/sub/x.go"}
+	return []c19After{
+		{k1: "read", fnames: fn, fcontent: fc, bad: "broken", k: 15, k2: "hash1", names: n3, contents: c3},
+		{k1: "read", fnames: fn, fcontent: fc, bad: "broken", k: 15, together: true, k2: "hashzip", names: z3, contents: c3},
+		{k1: "read", fnames: fn, fcontent: fc, bad: "broken", k: 0, k2: "hash1", names: n3, contents: c3},
+		{k1: "read", fnames: fn, fcontent: fc, bad: "broken", k: 1000, k2: "hashdir", prefix: "p@v1", names: n3, contents: c3},
+		{k1: "read", fnames: fn, fcontent: fc, bad: "absent", k: 3, k2: "hash1", names: fn, contents: fc},
+		{k1: "crc", fnames: z3, fcontent: c3, bad: "p@v1/m.go", k: 0, k2: "hashzip", names: z3, contents: c3},
+		{k1: "crc", fnames: z3, fcontent: c3, bad: "p@v1/m.go", k: 1, k2: "hashdir", prefix: "p@v1", names: n3, contents: c3},
+		{k1: "crc", fnames: z3, fcontent: c3, bad: "p@v1/go.mod", k: 1, k2: "hash1", names: z3, contents: c3},
+	}
+}
+
+// c19GenAfter generates a history. oracle: the second call is one whose result C19 fixes outright
+// (distinct names, a module prefix for HashDir) and the first call always has a file to fail on.
+func c19GenAfter(r *Rand, oracle bool) c19After {
+	var o c19After
+	nonEmpty := func() string {
+		for i := 0; i < 8; i++ {
+			if c := c19GenContent(r); c != "" {
+				return c
+			}
+		}
+		return "partial content"
+	}
+	if r.Chance(60) {
+		o.k1 = "read"
+		o.fnames, o.fcontent = c19GenSet(r, !oracle && r.Chance(10))
+		if len(o.fnames) == 0 {
+			o.fnames, o.fcontent = []string{"broken"}, []string{""}
+		}
+		i := r.Intn(len(o.fnames))
+		o.bad = o.fnames[i]
+		if o.fcontent[i] == "" && r.Chance(85) {
+			o.fcontent[i] = nonEmpty()
+		}
+		if r.Chance(8) && !thorough {
+			o.fcontent[i] = c19GenBigContent(r) // many Read calls before the failure
+		}
+		l := len(o.fcontent[i])
+		o.k = []int{0, 1, 1, l / 2, l / 2, l - 1, l, l, l + 5}[r.Intn(9)]
+		if o.k < 0 {
+			o.k = 0
+		}
+		o.together = r.Bool()
+		if !oracle && r.Chance(6) {
+			o.bad = r.Pick([]string{"absent", "", "a"}) // mostly no failure at all
+		}
+		if !oracle && r.Chance(6) {
+			o.fcontent = o.fcontent[:len(o.fcontent)-1] // an open failure as well
+		}
+	} else {
+		o.k1 = "crc"
+		if r.Bool() {
+			o.fnames, o.fcontent, _ = c19GenZipSet(r, !oracle && r.Chance(10))
+		} else {
+			rels, contents := c19GenModFiles(r, true)
+			for i := range rels {
+				rels[i] = "example.com/m@v1.0.0/" + rels[i]
+				if len(contents[i]) > 8000 {
+					contents[i] = contents[i][:8000]
+				}
+			}
+			o.fnames, o.fcontent = rels, contents
+		}
+		var files []int
+		for i, n := range o.fnames {
+			if !strings.HasSuffix(n, "/") {
+				files = append(files, i)
+			}
+		}
+		if len(files) == 0 {
+			o.fnames, o.fcontent = append(o.fnames, "broken.go"), append(o.fcontent, "")
+			files = []int{len(o.fnames) - 1}
+		}
+		i := files[r.Intn(len(files))]
+		o.bad = o.fnames[i]
+		if o.fcontent[i] == "" && r.Chance(85) {
+			o.fcontent[i] = nonEmpty()
+		}
+		if r.Chance(8) && !thorough {
+			o.fcontent[i] = c19GenBigContent(r) // a deflated entry that arrives in several pieces
+		}
+		o.k = r.Intn(2)
+	}
+	switch r.Intn(3) {
+	case 0:
+		o.k2 = "hash1"
+		if o.k1 == "read" && len(o.fcontent) == len(o.fnames) && c19Distinct(o.fnames) && r.Chance(30) {
+			o.names, o.contents = append([]string(nil), o.fnames...), append([]string(nil), o.fcontent...) // the same set again
+		} else {
+			o.names, o.contents = c19GenSet(r, false)
+		}
+	case 1:
+		o.k2 = "hashzip"
+		o.names, o.contents, _ = c19GenZipSet(r, false)
+	default:
+		o.k2 = "hashdir"
+		o.names = c19GenTree(r, c19FsElems, false)
+		o.contents = c19GenContents(r, len(o.names))
+		if oracle {
+			m := c19Mods[r.Intn(len(c19Mods))]
+			o.prefix = m.Path + "@" + m.Version
+		} else {
+			o.prefix = c19GenPrefix(r)
+		}
+	}
+	if len(o.names) == 0 && r.Chance(80) { // the empty set hashes no file
+		if o.k2 == "hashzip" {
+			o.names, o.contents = []string{"p@v1/go.mod"}, []string{"module p\n"}
+		} else {
+			o.names, o.contents = []string{"go.mod"}, []string{"module p\n"}
+		}
+	}
+	return o
+}
+
+// c19OracleAfter: the result of a Hash1 / HashZip / HashDir call is the documented formula over the names
+// and bytes of THAT call (or the refusal of a newline name), also when the call before it failed in the
+// middle of reading a file.
+func c19OracleAfter(g *Gen) {
+	o := c19GenAfter(g.Rand, true)
+	// the second call is also made once before the first one: when that result is already not what C19 says,
+	// the input is one for the single-call checks (formula, raw zips, directories), not a matter of history
+	h1, e1, h2, e2, h0, e0, ok := o.runBase(true)
+	if !ok {
+		return
+	}
+	g.Case("after-" + o.k1 + "-then-" + o.k2)
+	if e1 != nil {
+		g.Case("after-a-call-that-failed")
+		if errors.Is(e1, c19ErrRead) || errors.Is(e1, archzip.ErrChecksum) {
+			g.Case("after-a-call-that-failed-reading")
+		}
+	}
+	names := o.names
+	if o.k2 == "hashdir" {
+		names = make([]string, len(o.names))
+		for i, r := range o.names {
+			names[i] = o.prefix + "/" + r
+		}
+	}
+	mm := map[string]string{}
+	for i := range names {
+		mm[names[i]] = o.contents[i]
+	}
+	what := "Hash1"
+	switch o.k2 {
+	case "hashzip":
+		what = "HashZip"
+	case "hashdir":
+		what = "HashDir"
+	}
+	first := "a Hash1 call whose reader failed in the middle of a file"
+	if o.k1 == "crc" {
+		first = "a HashZip call on an archive with a CRC-damaged entry"
+	}
+	info := fmt.Sprintf("first call: %s -> %q,%v; then %s -> %q,%v (the same call before the first one: %q,%v)", first, h1, e1, what, h2, e2, h0, e0)
+	want := c19DocHash(c19DocSummary(names, func(s string) string { return mm[s] }))
+	if c19HasNL(names) {
+		if e0 == nil {
+			return
+		}
+		if e2 == nil || h2 != "" {
+			g.Fail("a name containing a newline is not refused by the call that follows a failed call", info, o.line())
+		}
+		return
+	}
+	if e0 != nil || h0 != want {
+		return
+	}
+	if e2 != nil {
+		g.Fail("the call that follows a call that failed while reading a file fails on a newline-free file set", info, o.line())
+		return
+	}
+	if h2 != want {
+		g.Fail("the h1 hash depends on the history of the process: right after a call that failed while reading a file, the result differs from the documented formula over names and bytes",
+			info+" want "+want, o.line())
+	}
+}
+
+// ---- r5-C19-b: raw archives against the formula (see c19NonCanon)
+
+// c19OracleRawZip: HashZip of an archive with distinct entry names is the documented formula over the
+// (entry name, entry content) pairs - refused iff a name contains a newline - whatever the names look like.
+func c19OracleRawZip(g *Gen) {
+	names, contents, nc := c19GenZipSet(g.Rand, false)
+	if !c19Distinct(names) {
+		return
+	}
+	scratch := c19Scratch()
+	defer os.RemoveAll(scratch)
+	z := filepath.Join(scratch, "raw.zip")
+	if c19WriteRawZip(z, names, contents) != nil {
+		return
+	}
+	// the archive really has these entries (archive/zip reads back what it wrote)
+	if zn, zc, err := c19ReadZip(z); err != nil || strings.Join(zn, "\n\x00") != strings.Join(names, "\n\x00") || strings.Join(zc, "\n\x00") != strings.Join(contents, "\n\x00") {
+		return
+	}
+	g.Case("rawzip-formula")
+	if nc > 0 {
+		g.Case("rawzip-formula-noncanonical-name")
+	}
+	replay := "dirhash.hashzip " + hxList(names) + " " + hxList(contents)
+	var hz string
+	e := c19Guard(func() (e error) { hz, e = dirhash.HashZip(z, dirhash.Hash1); return })
+	if c19HasNL(names) {
+		if e == nil || hz != "" {
+			g.Fail("HashZip does not refuse an archive with a newline in an entry name", hz, replay)
+		}
+		return
+	}
+	var odd []string
+	for _, n := range names {
+		if !c19IsCanonFS(n) {
+			odd = append(odd, n)
+		}
+	}
+	if e != nil {
+		g.Fail("HashZip fails on an archive with distinct newline-free entry names", fmt.Sprintf("%v; entry names that are not canonical fs.FS paths: %q", e, odd), replay)
+		return
+	}
+	mm := map[string]string{}
+	for i := range names {
+		mm[names[i]] = contents[i]
+	}
+	if want := c19DocHash(c19DocSummary(names, func(s string) string { return mm[s] })); hz != want {
+		g.Fail("HashZip differs from the documented formula over the entries (name, content) of the archive",
+			fmt.Sprintf("%s want %s; entry names that are not canonical fs.FS paths: %q", hz, want, odd), replay)
+	}
 }
